@@ -28,6 +28,22 @@ def run_watch(ctx, iters, stall_step, label="w"):
     return traces
 
 
+def odd_transports(ctx):
+    """The same property on transports the trace specification does not model: SetDeadline unsupported, hello already
+    buffered in front of the transport; direct assertions on the returned connection."""
+    f = ctx.path("watch-odd.ndjson")
+    rc, out = ctx.go_test("^TestWatchTransports$", env={"VH_OUT": f}, timeout=900)
+    res = vlib.read_ndjson(f)
+    summ = [x for x in res if x.get("summary")]
+    if not summ:
+        raise vlib.Inconclusive("odd-transport driver did not finish:\n" + out[-1500:])
+    ctx.evaluations += summ[0]["runs"]
+    ctx.notes["odd_transport_runs"] = summ[0]["runs"]
+    for x in res:
+        if not x.get("summary"):
+            ctx.violation("odd:" + x["key"].rsplit("/", 1)[0], "NewConn on an unusual transport (%s): %s" % (x["key"], x["diff"]), x)
+
+
 def run(ctx):
     ctx.rule = ("scenario = (context deadline, instant the hello becomes available, instant the caller cancels) over {-1 (never), 0, 1, 2}^3 "
                 "= 64 scenarios, every one run repeatedly under GOMAXPROCS 1/2/4/16; the caller always cancels again right after NewConn "
@@ -36,3 +52,4 @@ def run(ctx):
                        "statistical (many iterations); exhaustiveness is at model level"]
     ctx.mc("EchWatch", "MCEchWatch.cfg", timeout=600)
     run_watch(ctx, 12 if ctx.quick else 300, 997)
+    odd_transports(ctx)
